@@ -281,15 +281,26 @@ def r2(ctx):
     ctx.floor(R, "proxy-queue puts", nput, 2)
 
 
-def _proxy_side_tags(repo) -> Set[str]:
-    """String constants the proxy-side pump compares the dequeued event type with."""
+def _pump_fns(repo) -> List[FuncInfo]:
     pc = repo.fn("IPCInterceptionAddon._pump_callbacks")
+    return [f for f in class_methods_reachable(repo, pc, depth=3) if f.cls is not None and f.cls == pc.cls]
+
+
+def _proxy_side_tags(repo) -> Set[str]:
+    """String constants the proxy-side pump (and the helpers it calls) dispatches the dequeued event
+    type on: `== "x"`, `in ("x", ...)`, keys of a dispatch dict literal."""
     out = set()
-    for x in walk(pc.node):
-        if isinstance(x, ast.Compare) and len(x.ops) == 1 and isinstance(x.ops[0], ast.Eq):
-            for side in (x.left, x.comparators[0]):
-                if isinstance(side, ast.Constant) and isinstance(side.value, str):
-                    out.add(side.value)
+    for f in _pump_fns(repo):
+        for x in walk(f.node, into_defs=True):
+            if isinstance(x, ast.Compare) and len(x.ops) == 1 and isinstance(x.ops[0], (ast.Eq, ast.In)):
+                for side in (x.left, x.comparators[0]):
+                    for k in ([side] if not isinstance(side, (ast.Tuple, ast.List, ast.Set)) else side.elts):
+                        if isinstance(k, ast.Constant) and isinstance(k.value, str):
+                            out.add(k.value)
+            elif isinstance(x, ast.Dict):
+                for k in x.keys:
+                    if isinstance(k, ast.Constant) and isinstance(k.value, str):
+                        out.add(k.value)
     return out
 
 
@@ -307,44 +318,95 @@ def _check_payload(ctx, R, f, c, tag):
 
 # --------------------------------------------------------------------------- R3
 
+def _registry_attrs(repo, cls) -> Set[str]:
+    """self.<attr> containers in which the interception addon registers intercepted flows
+    (`self.<attr>[flow.id] = flow` next to `flow.intercept()`)."""
+    out = set()
+    for m in cls.methods.values():
+        if not find_calls(m.node, "intercept", into_defs=False):
+            continue
+        for st in stores(m.node, into_defs=False):
+            if st.kind == "setitem" and st.path.startswith("self.") and st.path.count(".") == 1:
+                out.add(st.path)
+    return out
+
+
 def r3(ctx):
     repo = ctx.repo
     R = "C15.R3"
-    ctx.rule(R, "_pump_callbacks: once the original flow is looked up, every path to the next iteration / exit "
-                "passes `if orig_flow is not None: orig_flow.resume()` in a finally (set_state failure included); "
-                "a failing callback does not end the pump")
+    ctx.rule(R, "_pump_callbacks (and the per-event helper it may call): once the original flow is looked up it is "
+                "bound to the variable the finally tests before anything can fail, and every path to the next "
+                "iteration / exit passes `if orig_flow is not None: orig_flow.resume()` in a finally (set_state "
+                "failure included); a failing callback does not end the pump")
     pc = repo.fn("IPCInterceptionAddon._pump_callbacks")
-    resumes = [c for c in find_calls(pc.node, "resume", into_defs=False) if not c.args]
-    ctx.ob(R, f"{pc.qual}: exactly one resume site", len(resumes) == 1, pc.where, f"found {len(resumes)}")
+    fns = _pump_fns(repo)
+    resumes = [(f, c) for f in fns for c in find_calls(f.node, "resume", into_defs=False) if not c.args]
+    ctx.ob(R, f"{pc.qual}: exactly one resume site", len(resumes) == 1, pc.where,
+           f"found {[f.qual + ': ' + norm(c) for f, c in resumes]}")
     if len(resumes) != 1:
         return
-    rc = resumes[0]
+    g, rc = resumes[0]
     v = ap(rc.func.value)
-    cfg = CFG(pc.node)
+    cfg = CFG(g.node)
     got_truthy = {(v, True)}
-    t = _final_try_of(rc, pc.node)
+    t = _final_try_of(rc, g.node)
     want = {(f"{v} is not None", True)}
     if t is not None and _guard_facts(rc, t) == got_truthy:
         want = got_truthy     # `if orig_flow:` is equivalent for flow objects
-    hnodes = set(_handback_checks(ctx, R, pc, cfg, rc, want, "the resume of the original flow"))
+    hnodes = set(_handback_checks(ctx, R, g, cfg, rc, want, "the resume of the original flow"))
     loops = [a for a in ancestors(rc) if isinstance(a, (ast.While, ast.For))]
-    ctx.require(bool(loops), f"{R}: resume is not inside the pump loop")
-    heads = {n for n in cfg.nodes_for(loops[0]) if n.kind == "loop"}
-    binds = [s for s in stores(pc.node, into_defs=False) if s.path == v and s.kind == "assign" and s.value is not None
+    heads = {n for n in cfg.nodes_for(loops[0]) if n.kind == "loop"} if loops else set()
+    if g is pc:
+        ctx.require(bool(loops), f"{R}: resume is not inside the pump loop")
+    else:
+        # per-event helper: it must be driven from a loop in _pump_callbacks (possibly awaited)
+        sites = [(f, c) for f in fns for c in find_calls(f.node, g.name, into_defs=False)
+                 if isinstance(c.func, ast.Attribute) and ap(c.func.value) == "self"]
+        ctx.ob(R, f"{pc.qual}: drives {g.qual} from its loop", bool(sites) and all(
+            any(isinstance(a, (ast.While, ast.For)) for a in ancestors(c)) for _, c in sites), pc.where)
+
+    # look-ups of the intercepted flow and the binding of the guard variable
+    regs = _registry_attrs(repo, g.cls)
+    ctx.require(bool(regs), f"{R}: flow registry attribute of {g.cls.name} not found")
+
+    def is_lookup(e):
+        return e is not None and any(
+            (isinstance(x, ast.Subscript) and ap(x.value) in regs) or
+            (isinstance(x, ast.Call) and isinstance(x.func, ast.Attribute) and x.func.attr in ("get", "pop")
+             and ap(x.func.value) in regs) for x in ast.walk(e))
+    lookups = [s for s in stores(g.node, into_defs=False) if s.kind == "assign" and isinstance(s.target, ast.Name)
+               and is_lookup(s.value)]
+    ctx.floor(R, "flow look-ups in the pump", len(lookups), 2)
+    binds = [s for s in stores(g.node, into_defs=False) if s.path == v and s.kind == "assign" and s.value is not None
              and not (isinstance(s.value, ast.Constant) and s.value.value is None)]
-    ctx.floor(R, f"look-ups binding {v}", len(binds), 2)
+    bind_nodes = {n for n in cfg.nodes for s in binds if n.ast is s.node}
+    for s in lookups:
+        starts = [n for n in cfg.nodes if n.ast is s.node]
+        if s.path != v:
+            # looked up into another name: the guard variable must be bound before anything fallible runs
+            bn = {n for n in bind_nodes if ap(n.ast.value) == s.path}
+            path = cfg_search(cfg, starts, target=lambda n: cfg_node_fallible(cfg, n),
+                              avoid=lambda n: n in bn or n in hnodes, follow_exc=lambda n: False, start_edges="normal")
+            ctx.ob(R, f"{g.qual}: flow looked up by `{norm(s.node)}` is bound to {v} before anything can fail",
+                   path is None and bool(bn), ctx.w(g, s.node),
+                   f"a call that may raise runs on the looked-up flow while {v} is still unset: the finally skips the "
+                   f"resume and the intercepted flow stays paused", cfg.describe_path(path) if path else None)
+    ctx.floor(R, f"bindings of {v}", len(binds), 2)
     for s in binds:
         starts = [n for n in cfg.nodes if n.ast is s.node]
         path = cfg_search(cfg, starts, target=lambda n: n in heads or n is cfg.exit or n is cfg.raise_exit,
                           avoid=lambda n: n in hnodes, follow_exc=_fallible(cfg), start_edges="normal")
-        ctx.ob(R, f"{pc.qual}: after `{norm(s.node)}` every path passes the resume statement",
-               path is None and bool(hnodes), ctx.w(pc, s.node),
+        ctx.ob(R, f"{g.qual}: after `{norm(s.node)}` every path passes the resume statement",
+               path is None and bool(hnodes), ctx.w(g, s.node),
                "the intercepted flow is left paused in mitmproxy (viewer request hangs)",
                cfg.describe_path(path) if path else None)
-    fall = [c for c in find_calls(pc.node, "set_state", into_defs=False)]
+    fall = [c for c in find_calls(g.node, "set_state", into_defs=False)]
     ctx.floor(R, "set_state calls", len(fall), 2)
     for c in fall:
-        ctx.ob(R, f"{pc.qual}: {norm(c)} failure does not end the pump", _swallowing(c, pc.node), ctx.w(pc, c),
+        ok = _swallowing(c, g.node)
+        if not ok and g is not pc:
+            ok = all(_swallowing(sc, f.node) for f, sc in sites) and bool(sites)
+        ctx.ob(R, f"{g.qual}: {norm(c)} failure does not end the pump", ok, ctx.w(g, c),
                "an exception would end the _pump_callbacks task: no later flow is resumed")
 
 
